@@ -233,6 +233,7 @@ def refinit(h, final, kwargs, positional_key):
         return None
 
     kw = dict(kwargs)
+    unchanged = {k for k, v in kw.items() if v == "<UNCHANGED>"}
     if positional_key is not None:
         if not key:
             return ("raise", {"TypeError"})
@@ -241,6 +242,12 @@ def refinit(h, final, kwargs, positional_key):
         kw[key] = positional_key
     known = {a for a in owner if init_flag[a]}
     unknown = {k: v for k, v in kw.items() if k not in known}
+    if unchanged & set(unknown):
+        return None  # the sentinel for a name that is not an init attribute: not judged
+    if key in unchanged and nearest_default(key) is None:
+        return None  # a required key 'given' as the sentinel: whether that satisfies the requirement is not stated
+    for k in unchanged:
+        del kw[k]  # ... and otherwise exactly as if the keyword had not been given
     if unknown and not overflow:
         return ("raise", {"TypeError"})
     if key and key not in kw and nearest_default(key) is None:
@@ -285,6 +292,8 @@ def keyword_sets(h):
     for n in names:
         out.append({n: "bad"})
         out.append(dict({m: 60 for m in names if m != n}, **{n: "bad"}))
+    for n in names:
+        out.append({n: "<UNCHANGED>"})  # the 'leave it as it is' sentinel: at construction time that is the default
     out.append({"zzz": 1})
     out.append({"zzz": 1, "a": 70})
     if h["overflow"]:
@@ -311,6 +320,9 @@ def run_one(h, final, kwargs, positional_key, others_first=False):
                 except Exception:
                     pass
     ns["LOG"].clear()
+    import spec_classes
+
+    kwargs = {k: (spec_classes.UNCHANGED if v == "<UNCHANGED>" else v) for k, v in kwargs.items()}
     try:
         inst = cls(positional_key, **kwargs) if positional_key is not None else cls(**kwargs)
     except Exception as e:
@@ -335,6 +347,8 @@ def judge(h, final, kwargs, positional_key, others_first=False):
                kw=("bad" if any(v == "bad" for v in kwargs.values()) else "unknown" if any(k not in ATTRS for k in kwargs) else "conf"),
                positional=positional_key is not None)
     out = []
+    if exp is None:
+        return out
     if exp[0] == "raise":
         if got[0] != "raise":
             out.append(violation(PROP, dict(sig, kind="should_raise"), {"expected": sorted(exp[1]), "got": repr(got[1])[:150]}, case))
